@@ -23,6 +23,7 @@ CLS_NESTED = 'nested_scope_bound_name_equals_generated_root'
 CLS_LATE = 'free_name_outside_namespace_equals_transpiler_name'
 CLS_FIXED = 'user_name_equals_hard_coded_template_identifier'
 CLS_COLLAPSE = 'transformed_function_name_collapses_to_hard_coded_identifier'
+CLS_BUILTIN = 'user_binding_shadows_builtin_referenced_by_generated_code'
 CORPUS = os.path.join(common.VERIF, 'corpus', 'C11')
 
 
@@ -67,10 +68,50 @@ def level_of(sym):
     return 'transpiler' if sym[3] == 'transpiler.py' else 'converter'
 
 
+def fn_sexp(r, facts):
+    return [facts['name'], facts['bound'], facts['read'], facts['readLocal'], facts['free'], facts.get('ns', r.get('namespace', [])),
+            facts.get('blockVarRoots', r.get('block_var_roots') or []), bool(facts.get('starCalls')), bool(facts.get('kwCalls'))]
+
+
 def classify_line(case, r, facts):
-    fx = [facts['name'], facts['bound'], facts['read'], facts['readLocal'], facts['free'], r['namespace']]
     reqs = [[level_of(s), s[0], s[1]] for s in r['symbols']]
-    return 'c11.classify %s %s' % (sexp(fx), sexp(reqs))
+    return 'c11.classify %s %s' % (sexp(fn_sexp(r, facts)), sexp(reqs))
+
+
+def why_line(r, facts):
+    reqs = [[level_of(s), s[0], s[1]] for s in r.get('symbols', [])]
+    return 'c11.why %s %s' % (sexp(fn_sexp(r, facts)), sexp(reqs))
+
+
+def conversion_of(r):
+    """The recorded requests as (pre, passes, post): transpiler-level requests before / after the converter passes; the
+    converter-level ones grouped by the pipeline step (= module of the call site) that issued them, in order."""
+    syms = r['symbols']
+    i = 0
+    pre = []
+    while i < len(syms) and level_of(syms[i]) == 'transpiler':
+        pre.append([syms[i][0], syms[i][1]])
+        i += 1
+    j = len(syms)
+    post = []
+    while j > i and level_of(syms[j - 1]) == 'transpiler':
+        post.insert(0, [syms[j - 1][0], syms[j - 1][1]])
+        j -= 1
+    passes = []
+    for s in syms[i:j]:
+        step = s[3][:-3] if s[3].endswith('.py') else s[3]
+        if level_of(s) == 'transpiler':
+            step = 'TRANSPILER-IN-THE-MIDDLE'
+        if passes and passes[-1][0] == step:
+            passes[-1][1].append([s[0], s[1]])
+        else:
+            passes.append([step, [[s[0], s[1]]]])
+    return pre, passes, post, (i, j)
+
+
+def e2e_line(r, facts):
+    pre, passes, post, _ = conversion_of(r)
+    return 'c11.e2e %s %s' % (sexp(fn_sexp(r, facts)), sexp([pre, passes, post]))
 
 
 def replay_line(r):
@@ -259,6 +300,57 @@ def load_corpus():
     return out
 
 
+# ------------------------------------------------------------------------------------------------- /repo functions
+def repo_why(run):
+    """(1) over every function of /repo/malt and /repo/tests (not converted: name facts from the text alone, namespace =
+    the module's top-level names, block variables = simple names stored inside if/while/for): which PROGRAM hypotheses of
+    C11_disjoint_partial fail, and for which names."""
+    import ast as _ast
+    import progen
+    mod_names = {}
+    lines, meta = [], []
+    for rf in progen.repo_functions():
+        if rf.path not in mod_names:
+            names = set()
+            try:
+                for n in _ast.parse(rf.source_module).body:
+                    if isinstance(n, (_ast.FunctionDef, _ast.ClassDef, _ast.AsyncFunctionDef)):
+                        names.add(n.name)
+                    elif isinstance(n, (_ast.Import, _ast.ImportFrom)):
+                        names.update((a.asname or a.name).split('.')[0] for a in n.names)
+                    else:
+                        names.update(m.id for m in _ast.walk(n) if isinstance(m, _ast.Name) and isinstance(m.ctx, _ast.Store))
+            except SyntaxError:
+                pass
+            mod_names[rf.path] = names
+        try:
+            facts = N.node_facts(rf.node, mod_names[rf.path])
+        except Exception:
+            continue
+        lines.append(why_line({}, facts))
+        meta.append((rf.path, rf.qualname))
+    if not lines:
+        return
+    got = run.drive(lines)
+    dist, examples, n_ok = {}, {}, 0
+    for (path, q), ans in zip(meta, got):
+        try:
+            reasons = [tuple(e) for e in parse_sexp(ans)]
+        except Exception:
+            reasons = [('unparsed', ans[:40])]
+        if not reasons:
+            n_ok += 1
+        for a in sorted({a for a, _ in reasons}):
+            dist[a] = dist.get(a, 0) + 1
+            if len(examples.setdefault(a, [])) < 4:
+                examples[a].append('%s:%s (%s)' % (path, q, ','.join(sorted({b for aa, b in reasons if aa == a}))))
+    run.evaluations += len(lines)
+    run.cov['why_outside_hypotheses(/repo functions)'] = {
+        'functions': len(lines), 'all_program_hypotheses_hold': n_ok, 'by_reason': dict(sorted(dist.items(), key=lambda kv: -kv[1])),
+        'examples': examples,
+        'note': 'not converted: no request sequence, so only the program-side hypotheses are evaluated; block variables and namespace are syntactic approximations'}
+
+
 # ------------------------------------------------------------------------------------------------- the check
 def check(run, only_case=None):
     run.rule = ('base programs: bounded-exhaustive control-flow skeletons (stride-sampled) + typed random programs; adversarial '
@@ -272,13 +364,19 @@ def check(run, only_case=None):
         'is checked per recorded conversion (obligation correspondence:reserved-covers-body-reads), not proved of the converters',
         'name facts (bound / read / readLocal / free) of a program are computed by harness/c11_names.py (own scope analysis + '
         'CPython symtable) and cross-checked against the real BODY_SCOPE.referenced on every conversion',
+        'the clash conditions of the hard-coded identifiers (hardClash: ag__ mentioned; vars_ a block variable; tuple/dict bound + a */keyword '
+        'call) are DEFINITIONS whose adequacy is tested, not proved: a failing case outside them is reported as a violation; the block '
+        'variables are read off the generated code (symbol_names of if_stmt/for_stmt/while_stmt)',
+        'the site table Gen.Naming.introSites is what tools/extract_naming.py recognises as name-introducing (templates.replace*, '
+        'parse_expression/parse_str, ast.Name/arg/Global/Nonlocal/alias/FunctionDef/ClassDef constructions, exec/eval/compile) in '
+        'malt/converters, pyct/transpiler.py, pyct/templates.py, core/converter.py, anf.py, pyct/transformer.py, malt/operators',
         'Python scoping of the generated module (factory wrappers enclose the function; nested defs see enclosing locals) is CPython\'s',
     ]
     run.translate(['Naming'])
     run.build_and_audit('MaltModel.Props.C11', model_files=MODEL_FILES)
     facts0 = N.naming_facts()
     voc = N.vocabulary(facts0)
-    fixed_names = set(facts0['fixed']) | set(facts0['extra_locals'])
+    fixed_names = set(facts0['fixed']) | set(facts0['extra_locals']) | {r[2] for r in facts0['intro_sites'] if r[4] == 'hard'}
     run.cov['vocabulary'] = sorted(voc)
     run.cov['new_symbol_call_sites'] = len(facts0['conv_sites']) + len(facts0['tr_sites'])
 
@@ -357,16 +455,61 @@ def _check(run, only_case, facts0, voc, fixed_names, quick, procs, parent):
             flat.append((by_id[g_id], case, r, facts))
     if infra > max(3, len(flat) // 50):
         raise common.InfraError('too many harness errors (%d)' % infra)
-    lines = []
+    lines, xlines = [], []
     for g, case, r, facts in flat:
         lines.append(replay_line(r))
         lines.append(classify_line(case, r, facts))
+        xlines.append(why_line(r, facts))
+        xlines.append(e2e_line(r, facts))
     answers = run.drive(lines) if run.driver_ok and lines else None
-    dis_replay, dis_conv, dis_reads, dis_facts, dis_thm = [], [], [], [], []
+    xanswers = run.drive(xlines) if run.driver_ok and xlines else None
+    dis_replay, dis_conv, dis_reads, dis_facts, dis_thm, dis_e2e, dis_why = [], [], [], [], [], [], []
     n_hyp_hold = 0
+    why_dist, why_sets, e2e_stats = {}, {}, {'well_formed': 0, 'no_clash_class': 0, 'both': 0, 'not_well_formed_steps': {}}
     judged = []
     for k, (g, case, r, facts) in enumerate(flat):
         pairs = None
+        if xanswers is not None and not r.get('load_error') and g.get('kind') in ('base', 'adversarial'):
+            # (1) WHY is this conversion outside the hypotheses of C11_disjoint_partial?
+            try:
+                reasons = [tuple(e) for e in parse_sexp(xanswers[2 * k])]
+                ev = {e[0]: e[1:] for e in parse_sexp(xanswers[2 * k + 1])}
+            except Exception:
+                reasons, ev = None, None
+                dis_why.append({'case': case, 'answer': xanswers[2 * k][:200]})
+            if reasons is not None:
+                kinds = sorted({a for a, _ in reasons})
+                for a in kinds or ['all_hypotheses_hold']:
+                    why_dist[a] = why_dist.get(a, 0) + 1
+                key = ' + '.join(kinds) or 'all_hypotheses_hold'
+                why_sets[key] = why_sets.get(key, 0) + 1
+                wf, nc = ev['well_formed'][0] == 'True', ev['no_clash_class'][0] == 'True'
+                e2e_stats['well_formed'] += wf
+                e2e_stats['no_clash_class'] += nc
+                pre, passes, post, (i0, j0) = conversion_of(r)
+                if not wf:
+                    kk = ','.join(p[0] for p in passes)
+                    e2e_stats['not_well_formed_steps'][kk] = e2e_stats['not_well_formed_steps'].get(kk, 0) + 1
+                # the fold over the passes gives, pass by pass, the names the real passes were given
+                real = [s[2] for s in r['symbols']]
+                model_passes = [list(p) for p in ev['passes']]
+                real_passes, pos = [], i0
+                for step, calls in passes:
+                    real_passes.append([step] + real[pos:pos + len(calls)])
+                    pos += len(calls)
+                if ev['pre'] != real[:i0] or model_passes != real_passes or ev['post'] != real[j0:]:
+                    dis_e2e.append({'case': case, 'what': 'per-pass names differ', 'model': [ev['pre'], model_passes, ev['post']],
+                                    'implementation': [real[:i0], real_passes, real[j0:]]})
+                if wf and nc:
+                    # instance of C11_conversion_end_to_end_partial on the REAL output
+                    e2e_stats['both'] += 1
+                    clash = [f for f in judge(case, dict(r, mismatches=[], convert_error=None), facts, fixed_names, []) if f[0].startswith('(i)')]
+                    hard = sorted(fixed_names & set(real))
+                    if clash or hard or len(set(real)) != len(real):
+                        dis_e2e.append({'case': case, 'what': 'well-formed, no clash class, but: %s' % (clash[0][0] if clash else 'names repeat / hard-coded handed out')})
+                    elif (r.get('mismatches') or r.get('convert_error')) and g.get('kind') == 'adversarial' and case.get('word') != N.NEUTRAL:
+                        # behaviour is judged against the control further down; recorded here only as a statistic
+                        e2e_stats['behaviour_differs_though_no_clash_class'] = e2e_stats.get('behaviour_differs_though_no_clash_class', 0) + 1
         if answers is not None:
             real_names = [s[2] for s in r['symbols']]
             try:
@@ -542,6 +685,15 @@ def _check(run, only_case, facts0, voc, fixed_names, quick, procs, parent):
         run.oblige('correspondence:c11.replay(conversions)', 'correspondence', not dis_replay, json.dumps(dis_replay[:2], default=str)[:1800])
         run.oblige('correspondence:c11.classify(parse)', 'correspondence', not dis_conv, json.dumps(dis_conv[:2], default=str)[:1800])
         run.oblige('correspondence:reserved-covers-body-reads', 'correspondence', not dis_reads, json.dumps(dis_reads[:2], default=str)[:1800])
+        run.oblige('correspondence:c11.e2e(per-pass names, pipeline order)', 'correspondence', not [d for d in dis_e2e if d['what'] == 'per-pass names differ'] and not dis_why,
+                   json.dumps(([d for d in dis_e2e if d['what'] == 'per-pass names differ'] + dis_why)[:2], default=str)[:1800])
+        run.oblige('checker:C11_conversion_end_to_end_partial-instances-on-real-output', 'checker', not [d for d in dis_e2e if d['what'] != 'per-pass names differ'],
+                   json.dumps([d for d in dis_e2e if d['what'] != 'per-pass names differ'][:2], default=str)[:1800])
+        for d in [d for d in dis_e2e if d['what'] != 'per-pass names differ'][:3]:
+            run.fail('hypotheses of C11_conversion_end_to_end_partial hold but ' + d['what'], d['case'], None)
+        run.cov['why_outside_hypotheses(generated corpus)'] = {'conversions': sum(why_sets.values()), 'by_reason': dict(sorted(why_dist.items(), key=lambda kv: -kv[1])),
+                                                                'by_reason_set': dict(sorted(why_sets.items(), key=lambda kv: -kv[1])[:25])}
+        run.cov['end_to_end'] = e2e_stats
         run.oblige('checker:C11_disjoint_partial-instances-on-real-output', 'checker', not dis_thm, json.dumps(dis_thm[:2], default=str)[:1800])
         run.cov['conversions_satisfying_all_hypotheses'] = n_hyp_hold
         for d in dis_thm[:3]:
@@ -553,10 +705,11 @@ def _check(run, only_case, facts0, voc, fixed_names, quick, procs, parent):
         for s in facts0['conv_sites']:
             if s[2] in ('lit', 'default') and s[3] not in roots:
                 roots.append(s[3])
-        ok = (tb['converterRoots'] == roots and tb['fixed'] == facts0['fixed'] + facts0['extra_locals'] and tb['prefix'] == [facts0['prefix']]
+        ok = (tb['converterRoots'] == roots and set(tb['fixed']) == fixed_names and tb['introSites'] == [str(len(facts0['intro_sites']))] and tb['prefix'] == [facts0['prefix']]
               and tb['lam'] == [facts0['lam']])
         run.oblige('correspondence:c11.tables', 'correspondence', ok, json.dumps(tb)[:600])
         if only_case is None:
+            repo_why(run)
             ulines, uexpect = namer_unit_stream(run, 1500 if quick else 12000)
             got = run.drive(ulines)
             bad = [{'request': l, 'implementation': e, 'model': g} for l, e, g in zip(ulines, uexpect, got) if e != g]
